@@ -836,7 +836,102 @@ def predicate(prog, sl, clv, applied, e, keep):
     return [Keep('pred', value=applied, origin=g.path)]
 
 
-def flag_conds(prog, sl, fn, cd, L, nxt, repl, keep):
+def some_when(prog, sl, g, m, keep):
+    """round 5 — when does the Option-returning function g return Some: [([Keep ..], total, defining stmt)], one entry per
+    `Some(..)` result with the decisions dominating it (subjects substituted by m) — truth() for a function that says "keep
+    this element" by returning Some(payload) instead of true (the body of a `filter_map` that fuses `filter(p).map(f)`).
+    total = every way to a None result that does not pass one of the Some results takes a complementary edge of one of those
+    decisions.  None when some result of g is not a literal Some(..) / None.  A function returning Result<Option<..>> is the
+    same thing with `Ok(Some(..))` / `Ok(None)` as results (its failures are not results; the `?`s passed on the way to a
+    Some are among the decisions, as ControlFlow::Continue)."""
+    res = g.ret.startswith('std::result::Result<std::option::Option<')
+    if not (g.ret.startswith('std::option::Option<') or res):
+        return None
+    local = 0
+    for _ in range(6):
+        defs = g.whole_defs(local)
+        if len(defs) == 1 and defs[0][0] == 'stmt' and defs[0][3]['r'] == 'use' and op_place(defs[0][3]['o']) and not op_place(defs[0][3]['o'])[1:]:
+            local = op_place(defs[0][3]['o'])[0]
+        else:
+            break
+    is_opt = lambda d: d[0] == 'stmt' and d[3]['r'] == 'agg' and d[3].get('adt') == 'std::option::Option' and d[3].get('variant') in ('Some', 'None')
+    somes = []      # (block the decisions are read at, the `Some(..)` statement)
+    nones = set()   # blocks where a None result is made
+    for d in defs:
+        if res:
+            # Result<Option<..>>: failures (`?`, Err(..)) are not results; every Ok(..) holds a literal Some(..) / None
+            if d[0] == 'call' and d[3].decl and d[3].decl.endswith('FromResidual::from_residual'):
+                continue
+            if d[0] == 'stmt' and d[3]['r'] == 'agg' and d[3].get('adt') == 'std::result::Result' and d[3].get('variant') == 'Err':
+                continue
+            if not (d[0] == 'stmt' and d[3]['r'] == 'agg' and d[3].get('adt') == 'std::result::Result' and d[3].get('variant') == 'Ok' and len(d[3]['ops']) == 1):
+                return None
+            pl = op_place(d[3]['ops'][0])
+            inner = g.whole_defs(origin_local(g, pl[0])) if pl and not pl[1:] else []
+            if len(inner) != 1 or not is_opt(inner[0]) or not g.dominates(inner[0][1], d[1]):
+                return None
+            if inner[0][3].get('variant') == 'Some':
+                somes.append((d[1], inner[0]))
+            else:
+                nones.add(d[1])
+        else:
+            if not is_opt(d):
+                return None
+            if d[3].get('variant') == 'Some':
+                somes.append((d[1], d))
+            else:
+                nones.add(d[1])
+    if not somes:
+        return None
+    skip = set(infeasible_edges(g))
+    vias = {bb for bb, _ in somes}
+    out = []
+    for bb, d in somes:
+        ks = []
+        for cd in conditions_x(g, bb, sl):
+            if cd.kind == 'variant' and cd.subject is not None:
+                ks.append(Keep('variant', cd.outcome, subst(cd.subject, m, sl), cd.enum, origin=g.path))
+            elif cd.kind == 'bool':
+                # a tested flag (`if !matches!(kind(d), Some(A | B)) { return None }`): the decisions under which it is set
+                fk = flag_conds(prog, sl, g, cd, _WholeFn(g), None, m, keep, entries=[0])
+                ks.extend(fk if fk is not None else [Keep('bool', cd.outcome, value=subst(cd.value, m, sl), origin=g.path)])
+            else:
+                ks.append(Keep('pred', value=subst(cd.value, m, sl), origin=g.path))
+            skip |= {(cd.sw_bb, t) for t in g.succs(cd.sw_bb) if t != cd.target}
+        out.append((ks, d))
+    # (a failure — `?`, Err(..) — on the way is not a result: what it does to the caller is decided where errors are followed)
+    total = not _reaches_end_avoiding(g, 0, vias, nones, skip)
+    return [(ks, total, d) for ks, d in out]
+
+
+class _WholeFn:
+    """the body of a function as the region flag_conds works on (instead of a loop body)"""
+
+    def __init__(self, g):
+        self.body, self.header = set(range(len(g.blocks))), -1
+
+
+def merge_alternatives(t, origin, fallback):
+    """several accepting results: alternatives that differ in one variant decision on the same subject are one decision"""
+    if len(t) == 1:
+        ks, total = t[0]
+        for k in ks:
+            k.total = bool(total and k.total)
+        return ks
+    base = t[0][0]
+    if all(len(ks) == len(base) for ks, _ in t):
+        merged = []
+        for i, k in enumerate(base):
+            col = [ks[i] for ks, _ in t]
+            if all(c.kind == 'variant' and k.kind == 'variant' and canon(c.subject) == canon(k.subject) for c in col):
+                merged.append(Keep('variant', frozenset().union(*[c.outcome for c in col]), k.subject, k.enum, origin=origin, total=all(tt for _, tt in t)))
+            else:
+                return fallback
+        return merged
+    return fallback
+
+
+def flag_conds(prog, sl, fn, cd, L, nxt, repl, keep, entries=None):
     """a tested boolean that is a local flag assigned constants under decisions inside the loop body
     (`let wanted = matches!(kind(x), Some(A | B)); if wanted { push }`): the decisions under which the flag has the tested
     value, as Keep conditions — the same table truth() gives for the boolean closure of a filter stage.  The flag must be
@@ -881,7 +976,8 @@ def flag_conds(prog, sl, fn, cd, L, nxt, repl, keep):
             trues.append(d)
     if not trues or len(blocks) != len(defs):
         return None
-    entries = [s for s in fn.succs(nxt) if s in L.body] if nxt is not None else []
+    if entries is None:
+        entries = [s for s in fn.succs(nxt) if s in L.body] if nxt is not None else []
     if not entries:
         return None
     # assigned exactly once on every way from the top of the body to the test
@@ -1036,32 +1132,63 @@ class Payloads:
                 return out
         return self.of_value(fn, self.sl.operand(fn, operand), m, guards, depth)
 
-    def returned(self, h, m, guards, depth):
-        """alternatives of the success payload of what h returns"""
+    def _component(self, h, operand, proj):
+        """the operand holding component `proj` of the tuple `operand` denotes, when that tuple is assembled by one
+        `(a, b, ..)` statement of h; else None"""
+        pl = op_place(operand)
+        if not pl or pl[1:]:
+            return None
+        defs = h.whole_defs(origin_local(h, pl[0]))
+        if len(defs) == 1 and defs[0][0] == 'stmt' and defs[0][3]['r'] == 'agg' and not defs[0][3].get('adt') and proj < len(defs[0][3].get('ops') or ()):
+            return defs[0][3]['ops'][proj]
+        return None
+
+    def returned(self, h, m, guards, depth, proj=None):
+        """alternatives of the success payload of what h returns (round 5: proj = of that component of the payload, a tuple —
+        `let (id, deps) = helper(dir)?` is two helpers, one per component)"""
         out = []
         local = origin_local(h, 0)
+        take = (lambda v: v) if proj is None else (lambda v: ('field', v, str(proj)))
         for d in h.whole_defs(local):
             gs = guards + self._guards(h, d[1], m)
             if d[0] == 'call':
                 if d[3].decl and d[3].decl.endswith('FromResidual::from_residual'):
                     continue
                 v = self.sl._def_value(h, d, set(), 0)
-                out.extend(self.of_value(h, self.sl.mk_unwrap(v, 1), m, gs, depth + 1))
+                out.extend(self.of_value(h, take(self.sl.mk_unwrap(v, 1)), m, gs, depth + 1))
             elif d[0] == 'stmt':
                 rv = d[3]
                 if rv['r'] == 'agg' and rv.get('variant') in ('Err', 'None') and rv.get('adt') in ('std::result::Result', 'std::option::Option'):
                     continue
                 if rv['r'] == 'agg' and rv.get('variant') in ('Ok', 'Some') and rv.get('adt') in ('std::result::Result', 'std::option::Option') and len(rv['ops']) == 1:
-                    out.extend(self.of_operand(h, rv['ops'][0], m, gs, depth + 1))
+                    op = rv['ops'][0] if proj is None else self._component(h, rv['ops'][0], proj)
+                    if op is not None:
+                        out.extend(self.of_operand(h, op, m, gs, depth + 1))
+                    else:
+                        out.extend(self.of_value(h, take(self.sl.operand(h, rv['ops'][0])), m, gs, depth + 1))
                 else:
                     v = self.sl._def_value(h, d, set(), 0)
-                    out.extend(self.of_value(h, self.sl.mk_unwrap(v, 1), m, gs, depth + 1))
+                    out.extend(self.of_value(h, take(self.sl.mk_unwrap(v, 1)), m, gs, depth + 1))
         return out
 
     def of_value(self, fn, v, m, guards, depth=0):
         from .lib.value import subst
         if v[0] == 'unwrap':
             v = self.sl.mk_unwrap(v[1], 1)
+        if v[0] == 'field' and str(v[2]).isdigit() and peel_upd(v[1])[0] == 'unwrap' and depth < 10:
+            # one component of the tuple a private helper returns
+            u = self.sl.mk_unwrap(peel_upd(v[1])[1], 1)
+            c = core(u)
+            if u[0] == 'unwrap' and c[0] == 'call' and c[1] in self.prog.fns and c[1] not in self.keep:
+                h = self.prog.fns[c[1]]
+                if h.kind != 'Closure' and h.ret.startswith(('std::result::Result', 'std::option::Option')):
+                    m2 = {(h.path, i): (subst(a, m, self.sl) if m else a) for i, a in enumerate(c[2]) if i < h.argc}
+                    alts = self.returned(h, m2, guards, depth + 1, proj=int(v[2]))
+                    if alts:
+                        self.frames[h.path] = h
+                        if site_of(c) is not None:
+                            self.sites.add(site_of(c))
+                        return alts
         c = core(v)
         if depth < 10 and c[0] == 'call' and c[1] in self.prog.fns and c[1] not in self.keep and v[0] == 'unwrap':
             h = self.prog.fns[c[1]]
@@ -1074,6 +1201,12 @@ class Payloads:
                         self.sites.add(site_of(c))
                     return alts
         return [Alt(guards, subst(v, m, self.sl) if m else v, fn, m, v)]
+
+
+def peel_upd(v):
+    while v[0] == 'updated':
+        v = v[1]
+    return v
 
 
 def build_of(prog, sl, E, alt, keep):
@@ -1196,6 +1329,32 @@ def fails_on_error(prog, sl, fn, call):
     return not _reaches_end_avoiding(fn, call.target, set(), sites, infeasible)
 
 
+ERR_KEEPING = ('std::result::Result::<T, E>::map', 'std::result::Result::<T, E>::and_then', 'std::result::Result::<T, E>::map_err',
+               'std::result::Result::<T, E>::inspect', 'std::result::Result::<T, E>::inspect_err')
+
+
+def carried_in_some(prog, sl, f, call):
+    """round 5 — f returns Option<Result<..>> and, once `call` has run, can only return `Some(r)` with r the Result of `call`
+    seen through combinators that keep its Err (`map`, `and_then`, `map_err`, ..): `filter_map(f)` then yields that Result as
+    an element (the fused form of `filter(p).map(f')`), and whoever collects the elements decides what an Err does"""
+    if f.kind == 'Closure' or not f.ret.startswith('std::option::Option<std::result::Result<') or call.target is None:
+        return False
+    sw = some_when(prog, sl, f, {}, ())
+    if not sw:
+        return False
+    vias = set()
+    for _, _, d in sw:
+        v = peel(sl.operand(f, d[3]['ops'][0]))
+        for _ in range(12):
+            if v[0] == 'call' and v[2] and v[1] in ERR_KEEPING:
+                v = peel(v[2][0])
+            else:
+                break
+        if site_of(v) == (f.path, call.bb):
+            vias.add(d[1])
+    return bool(vias) and not _reaches_end_avoiding(f, call.target, vias, set(f.return_blocks()), set())
+
+
 def success_implies(prog, call, sl=None, _seen=None, depth=0, stop=()):
     """(ok, why, failing call): whenever a public entry point that runs `call` succeeds, the Result produced by `call` was
     Ok — at every level the value is `?`-ed / returned / matched with failing non-Ok arms (discard.ok_on_success, or
@@ -1204,8 +1363,26 @@ def success_implies(prog, call, sl=None, _seen=None, depth=0, stop=()):
     f = call.fn
     if depth > 14:
         return False, 'call chain too deep at %s' % f.path, None
+    wrapped = False
     if not ok_on_success(prog, f, call) and not (sl is not None and fails_on_error(prog, sl, f, call)):
-        return False, 'the result of %s at %s is not required to be Ok for %s to succeed' % ((call.name or '?').split('::')[-1], call.where(), f.path.split('::')[-1]), call
+        if sl is not None and carried_in_some(prog, sl, f, call):
+            wrapped = True      # the Result travels on as the payload of f's `Some(..)`: decided where f's results are consumed
+        else:
+            return False, 'the result of %s at %s is not required to be Ok for %s to succeed' % ((call.name or '?').split('::')[-1], call.where(), f.path.split('::')[-1]), call
+    if wrapped:
+        users = [c for c in prog.callers().get(f.path, [])]
+        if not users:
+            return False, '%s is never called' % f.path, None
+        for c in users:
+            if c.name == f.path or c.decl != IT + 'filter_map':
+                return False, 'the result of %s is handed on inside the Some(..) that %s returns, which is used at %s: not followed' % ((call.name or '?').split('::')[-1], f.path.split('::')[-1], c.where()), None
+            sink = _pipeline_sink(prog, c.fn, c)
+            if sink is None or (not (sink.dty or '').startswith('std::result::Result<') and sink.decl not in (IT + 'try_for_each', IT + 'try_fold')):
+                return False, 'the results of %s are elements of a pipeline at %s that does not stop at the first failure' % (f.path.split('::')[-1], c.where()), None
+            r = success_implies(prog, sink, sl, seen, depth + 1, stop)
+            if not r[0]:
+                return r
+        return True, None, None
     if f.path in seen:
         return True, None, None
     seen.add(f.path)
